@@ -287,6 +287,27 @@ func localMap(v ssa.Value, depth int) bool {
 		}
 		return true
 	case *ssa.UnOp:
+		// a field of a struct allocated in this call, holding a map made here
+		if fa, ok := x.X.(*ssa.FieldAddr); ok && x.Op == token.MUL {
+			if al, isAl := fa.X.(*ssa.Alloc); isAl {
+				okAll, any := true, false
+				for _, r := range *al.Referrers() {
+					fa2, isFA := r.(*ssa.FieldAddr)
+					if !isFA || fa2.Field != fa.Field {
+						continue
+					}
+					for _, r2 := range *fa2.Referrers() {
+						if st, isSt := r2.(*ssa.Store); isSt && st.Addr == ssa.Value(fa2) {
+							any = true
+							if !localMap(st.Val, depth+1) {
+								okAll = false
+							}
+						}
+					}
+				}
+				return any && okAll
+			}
+		}
 		// a local variable holding a map made here
 		if al, ok := x.X.(*ssa.Alloc); ok && x.Op == token.MUL && !al.Heap {
 			okAll, any := true, false
